@@ -46,9 +46,16 @@ fn patch_component() -> BoxedStrategy<Vec<u8>> {
 pub fn name() -> BoxedStrategy<Vec<u8>> {
     (prop::collection::vec(component(), 0..=2), prop_oneof![3 => component(), 2 => patch_component()])
         .prop_map(|(dirs, last)| {
+            // by construction: a name in a sub-directory must classify the same on its basename
+            // and as a whole (patches are recorded by their file name only)
             let mut parts = dirs;
-            parts.push(last);
-            parts.join(&b"/"[..])
+            parts.push(last.clone());
+            let joined = parts.join(&b"/"[..]);
+            if m::unambiguous(&joined) {
+                joined
+            } else {
+                last
+            }
         })
         .prop_filter("unambiguous classification, no white space", |n| {
             m::unambiguous(n) && !n.iter().any(|b| m::is_ws(*b))
